@@ -265,12 +265,19 @@ structure Args where
   opts : Opts                   -- `opts.timeDiv` is ignored (filled in by `computePianoroll`)
 deriving Repr
 
-/-- the `pr_input` rows -/
-def toNotes (a : NoteArray) (k : Nat) (rows : List Row) : Option (List Note) :=
-  rows.mapM fun r =>
-    match r.times[k]? with
-    | none => none
-    | some (on, du) => some { pitch := r.pitch, onset := on, dur := du, vel := if a.hasVel then r.vel.getD 1 else 1 }
+/-- one `pr_input` row: pitch, the selected onset/duration pair, velocity (1 without a velocity column) -/
+def toNote (a : NoteArray) (k : Nat) (r : Row) : Option Note :=
+  match r.times[k]? with
+  | none => none
+  | some (on, du) => some { pitch := r.pitch, onset := on, dur := du, vel := if a.hasVel then r.vel.getD 1 else 1 }
+
+/-- the `pr_input` rows, in input order -/
+def toNotes (a : NoteArray) (k : Nat) : List Row → Option (List Note)
+  | [] => some []
+  | r :: rs =>
+    match toNote a k r, toNotes a k rs with
+    | some n, some ns => some (n :: ns)
+    | _, _ => none
 
 /-- `compute_pianoroll` up to the call of `_make_pianoroll`: unit selection, `time_div`,
     drum filtering, field selection. `none` = ValueError / missing field -/
@@ -321,6 +328,13 @@ def pcOut (r : Roll) (binary normalize : Bool) (c j : Int) : Rat :=
     let s := pcColSum r binary j
     (pcValue r binary c j : Rat) / ((if s = 0 then 1 else s : Int) : Rat)
   else (pcValue r binary c j : Rat)
+
+/-- column `j` of the returned array, computed as the code does (fold, binarise, one sum, one division per entry) -/
+def pcColumn (r : Roll) (binary normalize : Bool) (j : Int) : List Rat :=
+  let vals := (List.range 12).map fun (c : Nat) => pcValue r binary (c : Int) j
+  let s := vals.foldr (fun v acc => v + acc) 0
+  if normalize then vals.map fun (v : Int) => (v : Rat) / ((if s = 0 then 1 else s : Int) : Rat)
+  else vals.map fun (v : Int) => (v : Rat)
 
 /-- `compute_pitch_class_pianoroll`: the full roll it is folded from (always 128 rows, no
     piano range, not binary, drums removed) with the index rows' first column taken mod 12 -/
